@@ -122,6 +122,13 @@ Inductive verdict := VK | VZ | VD | VMangled.
 Inductive devent :=
   | DIgnored                                   (* out of range / unused slot: no state change *)
   | DReport (delnum : N) (v : verdict) (text : bytes).
+(* "I'm not going to try again; this message has been in the queue too long.\n" *)
+Definition DYING_TEXT : bytes :=
+  [73;39;109;32;110;111;116;32;103;111;105;110;103;32;116;111;32;116;114;121;32;97;103;97;105;110;59;32;116;104;105;115;32;109;101;115;115;97;103;101;32;104;97;115;32;98;101;101;110;32;105;110;32;116;104;101;32;113;117;101;117;101;32;116;111;111;32;108;111;110;103;46;10].
+(* a deferral for a message that is too old becomes a failure with that sentence appended; the code removes the
+   terminating NUL with --len first, which for a report clamped at REPORTMAX (whose NUL was cut off) is its last byte *)
+Definition dying_text (r text : bytes) : bytes :=
+  (if N.of_nat (length r) =? REPORTMAX then removelast text else text) ++ DYING_TEXT.
 Definition del_event (conc : N) (used : N -> bool) (dying : N -> bool) (r : bytes) : devent :=
   match r with
   | [] => DIgnored
@@ -131,7 +138,7 @@ Definition del_event (conc : N) (used : N -> bool) (dying : N -> bool) (r : byte
     | [] => DReport d VMangled []
     | k :: text =>
       if k =? 75 then DReport d VK text
-      else if k =? 90 then (if dying d then DReport d VD text else DReport d VZ text)
+      else if k =? 90 then (if dying d then DReport d VD (dying_text r text) else DReport d VZ text)
       else if k =? 68 then DReport d VD text
       else DReport d VMangled text
     end
